@@ -614,11 +614,26 @@ type cacheMultiStore struct {
 // CacheMultiStore would hide the method of that name that must be promoted.
 type current = store.CacheMultiStore
 
+// ctxKeyPrecompile marks the context that is handed to precompiles, and with it
+// every context that the modules called by a precompile derive from it.
+type ctxKeyPrecompile struct{}
+
+// IsPrecompileCtx returns true if ctx descends from the context of a precompile
+// call, i.e. if the code holding ctx runs in the middle of an EVM state
+// transition. The [StateDB] of that transition is neither committed nor
+// complete: nothing reached through a precompile may start another EVM state
+// transition on this context.
+func IsPrecompileCtx(ctx sdk.Context) bool {
+	marked, _ := ctx.Value(ctxKeyPrecompile{}).(bool)
+	return marked
+}
+
 func (s *StateDB) CacheCtxForPrecompile() (
 	sdk.Context, PrecompileCalled,
 ) {
 	if s.writeToCommitCtxFromCacheCtx == nil {
 		s.cacheCtx, s.writeToCommitCtxFromCacheCtx = s.evmTxCtx.CacheContext()
+		s.cacheCtx = s.cacheCtx.WithValue(ctxKeyPrecompile{}, true)
 		s.cacheStore = &cacheMultiStore{s.cacheCtx.MultiStore().(store.CacheMultiStore)}
 		s.cacheCtx = s.cacheCtx.WithMultiStore(s.cacheStore)
 	}
